@@ -145,7 +145,7 @@ fn coerce_variable_value(
             }
             "ID" => {
                 // https://spec.graphql.org/October2021/#sec-ID.Input-Coercion
-                if value.is_string() || value.is_i64() {
+                if value.is_string() || value.is_i64() || value.is_u64() {
                     return Ok(value.clone());
                 }
             }
